@@ -85,10 +85,15 @@ fn child_main(args: &BTreeMap<String, String>) -> ! {
     }
     let fmode = match mode {
         "once" => FaultMode::Once,
-        "perm" => FaultMode::Permanent,
+        "perm" | "short" => FaultMode::Permanent,
         _ => FaultMode::Dead,
     };
-    mon.add_fault(pred, nth, fmode, std::io::ErrorKind::Other);
+    if mode == "short" {
+        // short counts on write are legal: nothing may fail and nothing may be lost
+        mon.add_short_writes(pred, nth, fmode);
+    } else {
+        mon.add_fault(pred, nth, fmode, std::io::ErrorKind::Other);
+    }
     let mut surfaced: Vec<String> = vec![];
     let mut ok_commit_returns: Vec<(u64, usize)> = vec![];
     let mut api_calls = 0u64;
@@ -116,6 +121,9 @@ fn child_main(args: &BTreeMap<String, String>) -> ! {
             continue;
         }
         surfaced.push(format!("{}", op.kind()));
+        if mode == "short" && !matches!(op, Op::Merge { .. }) {
+            viol.push(("short-write-made-an-api-call-fail".into(), json!({"op": op.kind(), "err": out.err})));
+        }
         if is_commit {
             // a failed commit may have taken effect or not, never partially
             match observe_snapshot(&mon) {
@@ -357,7 +365,7 @@ fn parent_case(case: u64, rng: &mut Rng, rep: &mut Report, per_history: usize) {
             1 => n - 1,
             _ => rng.below(n),
         };
-        let mode = *rng.pick(&["once", "once", "perm", "dead"]);
+        let mode = if k.1 == "write" && rng.chance(1, 4) { "short" } else { *rng.pick(&["once", "once", "perm", "dead"]) };
         let sel = format!("{}:{}:{}:{}:{}", k.0, k.1, k.2, nth, mode);
         rep.eval();
         match run_child(cseed, &sel, Duration::from_secs(60)) {
